@@ -70,12 +70,36 @@ class PtLib:
 
     def callee_rowsum(self, a, b):
         from pytato.loopy import call_loopy
-        return call_loopy(_callee("rowsum", tuple(a.shape)), {"a": a, "b": b}, "rowsum")["out"]
+        return call_loopy(_callee("rowsum", tuple(a.shape)), {"b": b, "a": a}, "rowsum")["out"]   # (bindings deliberately not in sorted order)
 
     def callee_sq_and_neg(self, a):
         from pytato.loopy import call_loopy
         r = call_loopy(_callee("sqneg", tuple(a.shape)), {"a": a}, "sqneg")
         return r["sq"], r["ng"]
+
+    def callee_scaled(self, a, alpha):
+        """alpha*a + 1 through a callee whose scalar argument is bound to a Python number"""
+        from pytato.loopy import call_loopy
+        return call_loopy(_callee("scaled", tuple(a.shape)), {"alpha": alpha, "a": a}, "scaled")["out"]
+
+    def handmade_sub(self, x, y):
+        """x - y as a hand-built IndexLambda whose bindings are not inserted in sorted-name order"""
+        import pymbolic.primitives as prim
+        from pytato.array import make_index_lambda
+        idx = tuple(prim.Variable(f"_{k}") for k in range(x.ndim))
+        return make_index_lambda(prim.Variable("minuend")[idx] - prim.Variable("base")[idx],
+                                 {"minuend": x, "base": y}, x.shape, x.dtype)
+
+    def handmade_weighted(self, arrs):
+        """sum_k (k+1)*arrs[k] as one IndexLambda with bindings _in0.._in{n-1} in numeric insertion order
+        (for n > 10 that is not the lexicographic order)"""
+        import pymbolic.primitives as prim
+        from pytato.array import make_index_lambda
+        idx = tuple(prim.Variable(f"_{k}") for k in range(arrs[0].ndim))
+        e = 0
+        for k in range(len(arrs)):
+            e = e + (k + 1) * prim.Variable(f"_in{k}")[idx]
+        return make_index_lambda(e, {f"_in{k}": a for k, a in enumerate(arrs)}, arrs[0].shape, arrs[0].dtype)
 
 
 _CALLEES = {}
@@ -93,6 +117,12 @@ def _callee(which, shape):
                 [lp.GlobalArg("a", shape=(n, m), dtype=np.float64), lp.GlobalArg("b", shape=(n,), dtype=np.float64),
                  lp.GlobalArg("out", shape=(n,), dtype=np.float64, is_input=False)],
                 name="rowsum", lang_version=(2018, 2), target=lp.ExecutableCTarget())
+        elif which == "scaled":
+            _CALLEES[key] = lp.make_kernel(
+                f"{{[i,j]: 0<=i<{n} and 0<=j<{m}}}", "out[i,j] = alpha*a[i,j] + 1",
+                [lp.GlobalArg("a", shape=(n, m), dtype=np.float64), lp.ValueArg("alpha", dtype=np.float64),
+                 lp.GlobalArg("out", shape=(n, m), dtype=np.float64, is_input=False)],
+                name="scaled", lang_version=(2018, 2), target=lp.ExecutableCTarget())
         else:
             _CALLEES[key] = lp.make_kernel(
                 f"{{[i,j]: 0<=i<{n} and 0<=j<{m}}}", ["sq[i,j] = a[i,j]*a[i,j] + 1", "ng[j,i] = -a[i,j]"],
@@ -111,6 +141,18 @@ class _CalleeSemantics:
 
     def callee_sq_and_neg(self, a):
         return a * a + 1, (-a).T
+
+    def callee_scaled(self, a, alpha):
+        return alpha * a + 1
+
+    def handmade_sub(self, x, y):
+        return x - y
+
+    def handmade_weighted(self, arrs):
+        r = arrs[0]
+        for k in range(1, len(arrs)):
+            r = r + (k + 1) * arrs[k]
+        return r
 
 
 class NpLib(_CalleeSemantics):
@@ -232,7 +274,8 @@ CORPUS = [
                         "lor": L.logical_or(L.equal(x, y), L.not_equal(y, 1.0)), "lnot": L.logical_not(L.less_equal(x, y))}),
     _P("where_minmax", [ph("x", (4, 2)), ph("y", (4, 1)), ph("c", (2,), B)],
        lambda L, x, y, c: {"w": L.where(c, x, y), "mx": L.maximum(x, y), "mn": L.minimum(x, 0.5),
-                           "w2": L.where(L.less(x, y), 1.0, x)}),
+                           "w2": L.where(L.less(x, y), 1.0, x), "mn2": L.minimum(y, x), "mx2": L.maximum(0.5, x),
+                           "mn3": L.minimum(x, y)}),
     _P("math_funcs", [ph("x", (3, 2))],
        lambda L, x: {"a": L.sin(x) + L.cos(x), "b": L.exp(L.tanh(x)), "c": L.sqrt(L.abs(x)), "d": L.arctan(x),
                      "e": L.isnan(x), "f": L.log(x * x + 1)}),
@@ -277,7 +320,8 @@ CORPUS = [
                         "bt": L.broadcast_to(y, (3, 2)), "bt2": L.broadcast_to(x, (4, 3, 5, 2)) + 0}),
     _P("basic_index", [ph("x", (5, 4))],
        lambda L, x: {"row": x[1], "neg": x[-1, -2], "sl": x[1:4, ::2], "rev": x[::-1], "rev0": x[3::-1, 1],
-                     "revend": x[4:0:-2], "empty": x[3:1], "ell": x[..., 0], "clip": x[-100:100, 2:100]}),
+                     "revend": x[4:0:-2], "empty": x[3:1], "ell": x[..., 0], "clip": x[-100:100, 2:100],
+                     "revpast": x[7:2:-1], "revlen": x[5::-1, 0], "revfar": x[100::-2]}),
     _P("adv_index", [ph("x", (4, 3, 2)), ph("i", (2,), I64), ph("j", (2, 1), I64)],
        lambda L, x, i, j: {"a": x[i], "b": x[:, i], "c": x[i, :, i], "d": x[j, i % 3], "e": x[i, 1], "f": x[1:3, i % 3, ::-1],
                            "g": x[i, :, 0]},
@@ -285,6 +329,16 @@ CORPUS = [
     _P("creation", [ph("x", (3, 3))],
        lambda L, x: {"z": L.zeros((3, 3)) + x, "o": L.ones((3,), dtype=I32) * 2, "f": L.full((2, 3), 7.5), "eye": L.eye(3) * x,
                      "eyek": L.eye(3, 4, k=1), "ar": L.arange(3) * 2 + x, "zl": L.zeros_like(x), "ol": L.ones_like(x) + x}),
+    _P("like_dtype_override", [ph("x", (3,)), ph("w", (2, 2), F32)],
+       # (pytato's zeros_like is annotated to take an np.dtype instance, not a scalar type)
+       lambda L, x, w: {"zi": L.zeros_like(x, dtype=np.dtype(I32)) + 1, "of": L.ones_like(x, dtype=np.dtype(F32)) * 3,
+                        "zd": L.zeros_like(w, dtype=np.dtype(F64)) + w, "zsame": L.zeros_like(w) + w,
+                        "zraw": L.zeros_like(x, dtype=np.dtype(I32))}),
+    _P("handmade_index_lambda", [ph("x", (3,)), ph("y", (3,))],
+       lambda L, x, y: {"sub": L.handmade_sub(x, y), "shifted": L.handmade_sub(x * 2, y + 1) * y,
+                        "w11": L.handmade_weighted([x, y, x + 1, y + 1, x * 2, y * 2, x - 1, y - 1, x * x, y * y, x + y]),
+                        "st11": L.sum(L.stack([x, y, x + 1, y + 1, x * 2, y * 2, x - 1, y - 1, x * x, y * y, x + y]), axis=0)},
+       tags=("handmade",)),
     _P("pad", [ph("x", (2, 3)), ph("v", (3,))],
        lambda L, x, v: {"p1": L.pad(v, 1), "p2": L.pad(x, ((1, 0), (0, 2))), "p3": L.pad(v, (2, 1), constant_values=5.0)}),
     _P("sharing", [ph("x", (3, 3)), ph("y", (3, 3))],
@@ -295,7 +349,7 @@ CORPUS = [
     _P("out_is_input", [ph("x", (3,)), ph("y", (3,))],
        lambda L, x, y: {"x_out": x, "same1": x + y, "same2": x + y, "y2": y * 2}),
     _P("data_wrappers", [dw("d", (3, 2)), ph("x", (3, 2)), dw("e", (2,), I64)],
-       lambda L, d, x, e: {"o": d * x + e, "s": L.sum(d, axis=0) * e, "drev": d[::-1]}, tags=("reduction",)),
+       lambda L, d, x, e: {"o": d * x + e, "s": L.sum(d, axis=0) * e, "drev": d[::-1], "dout": d}, tags=("reduction",)),
     _P("dw_views", [dw("m", (3, 3)), dw("mt", (3, 3)), dw("u4", (4,)), dw("u2", (4,)), ph("x", (3, 3))],
        lambda L, m, mt, u4, u2, x: {"d": m - mt, "s": (m + x) * mt, "v": u4 * 2 - u2},
        tags=("views",),
@@ -338,6 +392,9 @@ CORPUS = [
        lambda L, x, y: (lambda sqng: {"rs": L.callee_rowsum(x * 2, y) + 1, "sq": sqng[0] - x, "ng": sqng[1] * 2,
                                       "rs2": L.callee_rowsum(sqng[0], y)})(L.callee_sq_and_neg(x + 1)),
        tags=("reduction", "loopycall")),
+    _P("loopy_call_scalar_binding", [ph("x", (3, 4))],
+       lambda L, x: {"sc": L.callee_scaled(x, 2.5) * 2, "sc2": L.callee_scaled(x + 1, -1.0) - x},
+       tags=("loopycall",)),
     _P("neg_abs_pow", [ph("x", (3,)), ph("m", (3,), I64)],
        lambda L, x, m: {"a": -x, "b": abs(x) ** 0.5, "c": (-m) ** 2, "e": x ** 2 - m}),
 ]
@@ -516,6 +573,15 @@ SYM_CORPUS = [
             lambda L, S, x, y: {"o": x - y, "w": L.where(L.less(x, y), x, y)}),
     SymProg("sym_pad", ("n",), [("x", lambda n: (n,), F64)],
             lambda L, S, x: {"p": L.pad(x, (1, 2))}),
+    SymProg("sym_transpose3", ("n", "m"),
+            [("a", lambda n, m: (n, m, 2), F64), ("b", lambda n, m: (2, n), F64), ("c", lambda n, m: (m, n + 1), F64)],
+            lambda L, S, a, b, c: {"t120": L.transpose(a, (1, 2, 0)), "t201": L.transpose(a, (2, 0, 1)),
+                                   "tb": L.transpose(a, (1, 2, 0)) + b, "t021": L.transpose(a, (0, 2, 1)),
+                                   "ct": c.T * 2}),
+    SymProg("sym_concat", ("n", "m"), [("x", lambda n, m: (n, 2), F64), ("y", lambda n, m: (m, 2), F64)],
+            # (concatenation *along* an axis with symbolic operand lengths is not implemented by the lowering:
+            #  TypeError in map_concatenate -- DESIGN.md section 6, "seen, not asserted")
+            lambda L, S, x, y: {"c1": L.concatenate([x, x * 2], axis=1), "c1y": L.concatenate([y * y, y], axis=1) + 1}),
 ]
 
 
